@@ -195,3 +195,26 @@ def holder_of(prog, static_name, must_call):
         return prog.fn(static_name)
     cands = [f for f in prog.lib_functions() if all(f.calls(c) for c in must_call)]
     return cands[0] if len(cands) == 1 else None
+
+
+def import_obligations(ctx, prog, runners, rule, prefix="", keep=None, what="imported rule"):
+    """run rule functions of another property on a private context and file their obligations under `rule` of this property
+    (the same structural fact is a necessary condition of both properties)"""
+    from sa.report import Ctx as _Ctx
+    from sa.facts import Inconclusive as _Inc
+    sub = _Ctx(ctx.prop, ctx.tier, prog)
+    try:
+        for r in runners:
+            r(prog, sub)
+    except _Inc as e:
+        ctx.inconclusive(rule, what, "", str(e))
+    n = 0
+    for ob in sub.obs:
+        if keep is not None and not keep(ob):
+            continue
+        ob.rule = rule
+        if prefix:
+            ob.instance = prefix + ob.instance
+        ctx.obs.append(ob)
+        n += 1
+    return n
